@@ -243,6 +243,15 @@ def handVerdict (prop : String) (args res : List String) : Verdict :=
     if out ≠ ",".intercalate spec ∧ q = 2 then vProp "T4-reported-rate-is-not-the-mean-of-the-last-two-intervals" tag
     else if out ≠ model then vDiff "stats" model tag
     else vOk tag
+  | ["reconn", _], res =>
+    -- the model: a connection task lives for one connection (`eof` ends it, its KillReq follows); nothing is ever
+    -- written on a connection before a handshake validated on it
+    let get (key : String) : String := (res.filterMap fun t => if t.startsWith (key ++ "=") then some ((t.drop (key.length + 1)).toString) else none).headD "?"
+    if res = ["P"] then vProp "task-panicked" "reconn"
+    else if get "piece2" ≠ "0" ∧ get "piece2" ≠ "?" then vProp "P08-piece-data-sent-on-a-connection-without-a-validated-handshake" "reconn"
+    else if get "first" ≠ "y" then vDiff "reconn-first-session" "first=y" "reconn"
+    else if get "second" ≠ "n" ∨ get "kill" ≠ "y" then vDiff "reconn" "first=y kill=y second=n piece2=0" "reconn"
+    else vOk "reconn"
   | ["name", hS], [out] =>
     match parseHex hS with
     | none => vBad hS
